@@ -188,6 +188,8 @@ func genCodeSpanHTML(r *proto.Rand) string {
 }
 
 // one line: code spans with backtick strings of other lengths inside, links inside and after
+// (made for the class of the cured finding ld-code-span-closed-inside-longer-run; since fix
+// 8b404d9 a stream of lines for the model of scanInlineLinks, main.go (7))
 func genLooseTicks(r *proto.Rand) string {
 	n := 1 + r.Intn(3)
 	m := n + 1 + r.Intn(2)
